@@ -55,7 +55,7 @@ GSETS = [
                          "import 'b.pg';\nS: S b.A | b.A | S ';';\n"
                          "LAYOUT: LI | LAYOUT LI | EMPTY;\nLI: WS | CM;\n"
                          "terminals\nWS: /\\s+/;\nCM: /#[ab]*#/;\n"],
-                "b.pg": ["A: 'a' | 'b';\n", "A: 'a';\n"]},
+                "b.pg": ["A: 'a' | 'b' | 'é' | '日本';\n", "A: 'a';\n"]},
          alpha="ab #", extra_probes=["a #b# a", " a  b", "a#", "a ## b #"]),
 ]
 OPTS = {
@@ -176,7 +176,7 @@ class World:
 
     def write_grammar(self, d, v):
         for name, k in zip(self.names, v):
-            open(os.path.join(d, name), "w").write(self.files[name][k])
+            open(os.path.join(d, name), "w", encoding="utf-8").write(self.files[name][k])
 
     def text(self, v):
         return "".join(f"# {n}\n{self.files[n][k]}" for n, k in zip(self.names, v))
@@ -277,6 +277,13 @@ def units(tier, seed):
                 out.append(dict(kind="crash", gset=gs, r=r, writer=w,
                                 byte_stride=pl["byte_stride"],
                                 op_stride=pl["op_stride"]))
+    # truncation sweep: the set with non-ASCII terminal texts (quick), all
+    # sets (thorough); every byte length of the cache
+    for gs in ([5] if tier == "quick" else pl["gsets"]):
+        for w in (("LR",) if tier == "quick" else ("LR", "GLR")):
+            for part in range(8):
+                out.append(dict(kind="trunc", gset=gs, writer=w, part=part,
+                                parts=8))
     n = len(spaces.grammars(**RT_SPACES[pl["rt_space"]]))
     for i in range(0, n, 400):
         out.append(dict(kind="roundtrip", space=pl["rt_space"],
@@ -402,6 +409,51 @@ def apply_event(world, judge, stats, st, writer, ev, hist):
         w = None          # nobody's complete table any more
     ns, _ = world.snapshot(v, order, touched)
     return ns, w
+
+
+def trunc_unit(u):
+    """every truncation length of a complete, fresh cache file (an incomplete
+    file however it came about - the write itself is atomic since fix 12):
+    each builder must behave like the no-cache oracle"""
+    world = World(u["gset"])
+    judge = Judge(PROP, KNOWN)
+    stats = collections.Counter()
+    names = tuple(world.names)
+    v = tuple(0 for _ in names)
+    try:
+        world.materialize((v, (), names))
+        do_build(world.d, u["writer"], world.alpha)
+        path = os.path.join(world.d, "g.pgc")
+        data = open(path, "rb").read()
+        newest = max(os.stat(os.path.join(world.d, f)).st_mtime
+                     for f in os.listdir(world.d))
+        for cut in range(u["part"], len(data), u["parts"]):
+            for opt in ("LR", "GLR"):
+                open(path, "wb").write(data[:cut])
+                os.utime(path, (newest + 10, newest + 10))
+                got = do_build(world.d, opt, world.alpha)
+                want = world.oracle(v, opt)
+                stats["builds"] += 1
+                stats["truncation_points"] += 1
+                if got != want:
+                    judge.deviation(None, f"trunc/{u['writer']}->{opt}",
+                                    str(u["gset"]), str(cut),
+                                    "a parser built next to a truncated cache "
+                                    "file differs from the no-cache oracle",
+                                    {"got": str(got)[:200],
+                                     "want": str(want)[:200]},
+                                    {"grammar_files": world.text(v),
+                                     "cache_written_by": u["writer"],
+                                     "truncated_to_bytes": cut, "build": opt})
+    finally:
+        world.close()
+    r = judge.result()
+    r.update(stats)
+    r.update(traces=stats["builds"], evaluations=stats["builds"],
+             nontrivial=stats["builds"], transitions=stats["builds"],
+             samples=[{"truncation_sweep": u["writer"], "gset": u["gset"],
+                       "cache_bytes": len(data)}] if u["part"] == 0 else [])
+    return r
 
 
 def bfs_unit(u):
@@ -571,6 +623,8 @@ def roundtrip_unit(u):
 def run_unit(u):
     if u["kind"] == "bfs":
         return bfs_unit(u)
+    if u["kind"] == "trunc":
+        return trunc_unit(u)
     if u["kind"] == "crash":
         return crash_unit(u)
     return roundtrip_unit(u)
